@@ -289,7 +289,12 @@ def enum_pairs(seed):
                 continue
             if hash(a) != hash(b):
                 bad({"kind": kind, "a": na, "b": nb}, f"{na} == {nb} but their hashes differ")
-            diff = [str(p) for p in probes if matcher(a, p) != matcher(b, p)]
+            def m_(o, p):
+                try:
+                    return matcher(o, p)
+                except Exception as e:   # both sides raising alike is agreement
+                    return ("raises", type(e).__name__)
+            diff = [str(p) for p in probes if m_(a, p) != m_(b, p)]
             if diff:
                 bad({"kind": kind, "a": na, "b": nb, "argument": diff[0]}, f"{na} == {nb} but they disagree on {diff[:3]}")
     vers = ["1", "1.0", "1.00", "1.01", "1.010", "1.1", "1.10", "1.100", "3.1", "3.10", "3.1.2", "3.1.20", "2.1_p1", "2.10_p1", "1.0.0"]
@@ -322,6 +327,18 @@ def enum_pairs(seed):
         except Exception:
             pass
     compare("atom", aobj, fake, lambda r, p: r.match(p))
+    # the USE restrictions atoms build (flag required on / off, with a (+) or (-) default for packages that lack the flag)
+    use_atoms = ["a/b[x]", "a/b[-x]", "a/b[x(+)]", "a/b[x(-)]", "a/b[-x(+)]", "a/b[-x(-)]", "a/b[x,y]", "a/b[y,x]", "a/b[x(+),y(+)]", "a/b[x(-),y(-)]", "a/b[x(+),-y(-)]"]
+    fake_use = [FakePkg("a/b-1", repo=repo, use=u, iuse=iu) for iu in ((), ("x",), ("y",), ("x", "y")) for u in ((), ("x",), ("y",), ("x", "y")) if set(u) <= set(iu)]
+    use_restr = []
+    for t in use_atoms:
+        for i_, r_ in enumerate(x for x in atom(t).restrictions if "use" in type(x).__name__.lower() or "use" in str(getattr(x, "attr", "")).lower() or "UseDep" in type(x).__name__):
+            use_restr.append((f"USE restriction #{i_} of atom({t!r})", r_))
+    compare("use_restriction", use_restr, fake_use, lambda r, p: r.match(p))
+    # dependency sets (boolean trees of atoms): the same members in another order or written twice
+    from pkgcore.ebuild.conditionals import DepSet
+    dsets = [(f"DepSet({t!r})", DepSet.parse(t, atom)) for t in ("a/b a/c", "a/c a/b", "a/b a/b a/c", "a/b", "|| ( a/b a/c )", "|| ( a/c a/b )", "x? ( a/b ) a/c", "a/c x? ( a/b )")]
+    compare("depset", dsets, [None], lambda r, p: None)   # dependency sets are not matched against packages; equality and hash only
     # the restriction trees atoms and query parsers build from version restrictions
     trees = [(f"And(PackageRestriction(fullver, {n}))", boolean.AndRestriction(packages.PackageRestriction("package", values.StrExactMatch("p")), vm)) for n, vm in vms[::3]]
     compare("tree", trees, pkgs, lambda r, p: r.match(p))
